@@ -44,6 +44,9 @@ func registerGhosts(v *Verifier) {
 	v.ghostFuns["validValAddr"] = ghostSig{[]string{sortStr}, "Bool"}
 	v.ghostFuns["decFromStr"] = ghostSig{[]string{sortStr}, "Int"}
 	v.ghostFuns["decFromStrOk"] = ghostSig{[]string{sortStr}, "Bool"}
+	v.ghostFuns["strcontains"] = ghostSig{[]string{sortStr, sortStr}, "Bool"}
+	v.ghostFuns["strhasprefix"] = ghostSig{[]string{sortStr, sortStr}, "Bool"}
+	v.ghostFuns["strlen"] = ghostSig{[]string{sortStr}, "Int"}
 }
 
 func (e *Enc) extCall(x ssa.Value, cc *callCtx, name string) bool {
